@@ -43,6 +43,13 @@
 #error "TRX_IF_C must name src/host/trxcon/src/trx_if.c of the repository under test"
 #endif
 #include TRX_IF_C
+/* functions of the TRX interface that this tree keeps in other files of the same directory (props/trxcon_part.py finds them) */
+#ifdef TRX_IF_EXTRA1
+#include TRX_IF_EXTRA1
+#endif
+#ifdef TRX_IF_EXTRA2
+#include TRX_IF_EXTRA2
+#endif
 
 const char *__asan_default_options(void) { return "detect_leaks=0:abort_on_error=0:exitcode=99:symbolize=0"; }
 const char *__msan_default_options(void) { return "exitcode=99:symbolize=0"; }
@@ -328,6 +335,32 @@ static int do_rsp(char **tok, int ntok)
 			int clen = unhex(p, &c);
 			struct trx_ctrl_msg *tcm;
 			if (clen < 0 || clen > (int) sizeof(tcm->cmd) - 1) { free(dg); env_close(&e); return -1; }
+			/* a well-formed pending command is queued by the REAL trx_ctrl_cmd() (whatever bookkeeping it does per
+			 * message is then done); any other octet string is put into a zeroed message by hand */
+			if (clen > 4 && !memcmp(c, "CMD ", 4) && !memchr(c, 0, clen)) {
+				char verb[64], *args;
+				char *txt = calloc(1, clen + 1);
+				size_t vl;
+				memcpy(txt, c, clen);
+				args = strchr(txt + 4, ' ');
+				vl = args ? (size_t) (args - (txt + 4)) : strlen(txt + 4);
+				if (vl > 0 && vl < sizeof(verb)) {
+					memcpy(verb, txt + 4, vl);
+					verb[vl] = 0;
+					if (args)
+						trx_ctrl_cmd(e.trx, atoi(tok[2]), verb, "%s", args + 1);
+					else
+						trx_ctrl_cmd(e.trx, atoi(tok[2]), verb, "");
+					tcm = llist_entry(e.trx->trx_ctrl_list.prev, struct trx_ctrl_msg, list);
+					/* exactly the octets of the request (a trailing blank after the verb is kept) */
+					memset(tcm->cmd, 0, sizeof(tcm->cmd));
+					memcpy(tcm->cmd, c, clen);
+					free(txt);
+					free(c);
+					continue;
+				}
+				free(txt);
+			}
 			tcm = calloc(1, sizeof(*tcm));
 			if (clen) memcpy(tcm->cmd, c, clen);
 			free(c);
@@ -335,6 +368,14 @@ static int do_rsp(char **tok, int ntok)
 			llist_add_tail(&tcm->list, &e.trx->trx_ctrl_list);
 		}
 	}
+	/* what queueing itself sent / recorded is not part of this request */
+	{
+		char drain[2048];
+		while (recv(e.ctrl_peer, drain, sizeof(drain), MSG_DONTWAIT) > 0)
+			;
+	}
+	rec_reset();
+	e.trx->trx_ctrl_timer.active = 1;
 	q0 = qlen(e.trx);
 	if (send(e.ctrl_peer, dg ? dg : (uint8_t *) "", len, 0) != len) { perror("send"); exit(3); }
 	free(dg);
